@@ -251,6 +251,7 @@ MUTANTS = [
         if fwti > 14:
             log.warning("FWI with RFU value in RATS_RES")
             fwti = 4
+
         fsc = (16, 24, 32, 40, 48, 64, 96, 128, 256)[fsci]""", """        fsci, fwti = rats_res[1] & 0x0F, rats_res[3] >> 4
         if fsci > 8:
             log.warning("FSCI with RFU value in RATS_RES")
